@@ -16,7 +16,8 @@ def paths_cases(maxsegs):
         cases.append(json.loads(json.loads('"' + m.group(1) + '"')))
     return r, cases
 
-EXTRAS = ("extra_one.log", "sub/dir/extra_two.log", ".side.log", "sub/.index", "sub/dir/x..y_-z", ".hid/f")
+EXTRAS = ("extra_one.log", "sub/dir/extra_two.log", ".side.log", "sub/.index", "sub/dir/x..y_-z", ".hid/f",
+          "deep/er/est/file.log", "zz/yy/late.log", "zz/zlast.log")     # several new directory levels without files in the upper ones
 STALE_EXTRAS = ("extra_one.log", "sub/.index")
 
 def run_case(case, incase, driver):
@@ -38,8 +39,13 @@ def run_case(case, incase, driver):
         token = "IN %s -> %s\n" % (incase["path"], case["path"])
         open(want_in, "w").write(token)
         if case["needsdest"]:
-            os.makedirs(os.path.dirname(os.path.join(cwd, outp)), exist_ok=True)
-            os.makedirs(os.path.dirname(want_out), exist_ok=True)
+            # stated precondition: the destination directory of absolute / parent-relative outputs exists. The kernel resolves ".."
+            # through directories that must exist, so for paths that are absolute or START by leaving the working directory the path is
+            # created as written; a relative path that starts inside the working directory (a/../x) needs nothing: scipipe creates "a"
+            segs = [x for x in outp.split("/") if x not in ("", ".")]
+            if outp.startswith("/") or (segs and segs[0] == ".."):
+                os.makedirs(os.path.dirname(os.path.join(cwd, outp)), exist_ok=True)
+            os.makedirs(os.path.dirname(want_out), exist_ok=True)      # the directory the file finally lives in
         # files with the names of two of the extra files exist already (left by an earlier run): the new ones replace them
         for x in STALE_EXTRAS:
             os.makedirs(os.path.dirname(os.path.join(cwd, x)) or cwd, exist_ok=True)
@@ -51,7 +57,8 @@ def run_case(case, incase, driver):
                     procs=[dict(name="s", kind="src", paths=[inp]),
                            dict(name="a", kind="cmd", ins=["in"], outs=["out"], outpaths={"out": outp},
                                 arg="cat {i:in} > {o:out} && echo E1 > extra_one.log && mkdir -p sub/dir && echo E2 > sub/dir/extra_two.log"
-                                    " && echo E3 > .side.log && echo E4 > sub/.index && echo E5 > sub/dir/x..y_-z && mkdir -p .hid && echo E6 > .hid/f")])
+                                    " && echo E3 > .side.log && echo E4 > sub/.index && echo E5 > sub/dir/x..y_-z && mkdir -p .hid && echo E6 > .hid/f"
+                                    " && mkdir -p deep/er/est zz/yy && echo E7 > deep/er/est/file.log && echo E8 > zz/yy/late.log && echo E9 > zz/zlast.log")])
         json.dump(spec, open(os.path.join(cwd, "wf.json"), "w"))
         env = dict(os.environ, SCIPIPE_BUFSIZE="1")
         p = subprocess.run([driver, "wf.json"], cwd=cwd, env=env, capture_output=True, text=True, timeout=60)
@@ -79,7 +86,7 @@ def check_C13(tier):
     chk = Check("C13", tier)
     chk.rule = ("Paths.tla enumerates every path of the grammar {abs?} x (<= MaxSegs segments from {a, b, .., ., a.., ..a, ..., __parent__, __parent__a, __fsroot__}) x "
                 "{f, __parent__f, f..}; TLC checks transcription = property except on the exported class F9; every case (quick: seeded sample) is replayed as a "
-                "one-task workflow (output at the case path, input at another case path, six extra files), verdict = real location vs normpath(cwd/path); "
+                "one-task workflow (output at the case path, input at another case path, nine extra files), verdict = real location vs normpath(cwd/path); "
                 "plus random long paths over [0-9A-Za-z._-] (segments up to 120 chars, depth up to 8, ./ ../ prefixes and inner ./ ../, absolute); "
                 "non-trivial = distinct cases whose temp path differs from the declared path or that have >= 1 directory segment")
     chk.assumptions = ["destination directory pre-created for absolute and ..-relative outputs (stated precondition)", "extra files with placeholder-like names are outside the stated quantifier"]
@@ -133,7 +140,8 @@ def check_C13(tier):
             continue
         msg = ("output declared as %r (input %r): run ok=%s rc=%s, file at declared path=%s, copies elsewhere=%s, extra files moved=%s, temp dirs left=%s %s"
                % (c["path"], ic["path"], res["ok"], res["rc"], at_declared, [os.path.basename(w) for w in elsewhere][:3], res["extras_ok"], res["leftovers"][:1], res["err"][-160:].replace("\n", " | ")))
-        if c["f9"] and findings.active("F9"):
+        f9like = c["f9"] or (re.search(r"(?:[^/.]\.\.|\.\.\.)/", c["path"]) and not res["ok"])     # a directory segment ending in ".." that is not ".." itself
+        if f9like and findings.active("F9"):
             chk.known_finding("F9", "a not-yet-existing directory segment ending in '..' (character-level '../' replacement), e.g. %r" % c["path"])
         else:
             chk.violation(msg, dict(case=c, input_case=ic))
